@@ -371,6 +371,32 @@ Section Spec.
     unfold str in *. rewrite Ha. reflexivity.
   Qed.
 
+  (* --- a dispatched request never falls through to the bare 404 once some
+         handler claims it; the handler consulted last claims everything
+         (Gen_http.catch_all_last, from the AST of default_handler.match) *)
+  Lemma dispatch_not_404 chain hdr : forall ms k,
+    (k < length chain)%nat -> nth k ms MFalse = MTrue ->
+    fst (dispatch chain ms hdr) <> Error404.
+  Proof.
+    induction chain as [|[h w] chain IH]; intros ms k Hk Hn; simpl in Hk; [lia|].
+    simpl. destruct ms as [|m ms'].
+    - destruct k; discriminate.
+    - destruct m.
+      + destruct (handle h w hdr) as [r eff]. simpl. destruct r; discriminate.
+      + destruct k as [|k']; [discriminate|]. simpl in Hn. apply (IH ms' k'); [lia | exact Hn].
+      + discriminate.
+  Qed.
+
+  Theorem never_404_behind_catch_all text r ms :
+    parse_block text = PReq r ->
+    nth (length installed_handlers - 1) ms MFalse = MTrue ->
+    fst (channel text ms) <> Error404.
+  Proof.
+    intros Hp Hn. unfold Auth.channel. rewrite Hp.
+    apply (dispatch_not_404 _ _ ms (length installed_handlers - 1)%nat); [|exact Hn].
+    rewrite chain_length. assert (0 < length installed_handlers)%nat by (simpl; lia). lia.
+  Qed.
+
   (* --- c17_malformed_refused: each class of malformed / wrong credentials and
          the refusal it lands in (never Serve, never an effect) *)
   Inductive malformed (hdr : list str) : decision -> Prop :=
